@@ -3,24 +3,24 @@
 import json, os
 
 CLAIMED = {
- "C03": ("bounded symbolic execution of one real kernel step (both kernels) with the involutive form of detailed balance decided by z3 (QF_NRA): involution, unit Jacobian, acceptance region == min(1, target ratio); redraw-on-hard-bound and wrapped tpCN moves reported as known findings", "DSE + z3 nlsat; involution witness", "§4 C03"),
- "C04": ("every feasible path of the real compute_logw_and_logz over symbolic log-likelihoods/evidences; per-sample formula, evidence, normalisation, order- and shift-invariance are z3 identities over exact reals, for the stated batch sizes and beta grid", "DSE on numpy object arrays + log-domain algebra + z3 nlsat", "§4 C04"),
+ "C03": ("bounded symbolic execution of one real kernel step (both kernels) with the involutive form of detailed balance decided by z3 (QF_NRA): involution, unit Jacobian, acceptance region == min(1, target ratio), K>1 modes, two iterations == composition of two steps, magnitudes of the ratio under a range abstraction of double exp; wrapped tpCN moves and RWM with a reflective coordinate and correlated scale matrix are reported as known findings", "DSE + z3 nlsat; involution witness", "§4 C03"),
+ "C04": ("every feasible path of the real compute_logw_and_logz over symbolic log-likelihoods/evidences; per-sample formula, evidence, normalisation, order- and shift-invariance are z3 identities over exact reals, for the stated batch sizes, a beta grid and arbitrary real temperatures (uninterpreted exp(beta*l) with congruence instances)", "DSE on numpy object arrays + log-domain algebra + z3 nlsat", "§4 C04"),
  "C05": ("all paths of the real Reweighter (ESS and volume modes) over an uninterpreted pool family with symbolic beta_prev/targets (bounded bisection depth), plus the real weight computation on a two-sample pool", "DSE + z3 (QF_UFLRA / QF_NRA)", "§4 C05"),
- "C06": ("all paths of the real systematic_resample / Resampler.run for symbolic weights and symbolic uniform offset within the size bounds; index validity, inverse-CDF, floor/ceil copies law as z3 queries", "DSE + z3 (QF_LRA/NRA)", "§4 C06"),
+ "C06": ("all paths of the real systematic_resample / Resampler.run for symbolic weights and symbolic uniform offset within the size bounds; index validity, inverse-CDF, floor/ceil copies law as z3 queries; bit-precise (QF_FP) over all offsets for concrete dyadic weights", "DSE + z3 (QF_LRA/NRA)", "§4 C06"),
  "C07": ("inductive step per pipeline stage from an arbitrary coherent symbolic pre-state with uninterpreted user callbacks; coherence of everything written is a z3 query per path", "DSE + z3 (QF_UFNRA), uninterpreted callbacks", "§4 C07"),
  "C08": ("restore exactness, resume bookkeeping and crash safety of the real save/load code against a recording file-system double; the crash point and the number of bytes of the in-flight write are solver variables", "DSE + z3 (LIA) crash-point model", "§4 C08"),
  "C09": ("the numpy global stream is threaded as an uninterpreted state term through the real code; 'no reset' and 'seeded at construction' are z3 queries over all seeds and initial states", "concolic execution + z3 (UF)", "§4 C09"),
  "C10": ("relational execution (logL vs logL+c, symbolic c) of each consumer of log-likelihood values; equal schedule/particles/weights and evidence shift beta*c as z3 identities", "relational DSE + z3", "§4 C10"),
- "C11": ("all -inf patterns and replacement choices of W consecutive real warm-up iterations; recorded evidence within the per-batch supported fractions as z3 queries", "DSE + log-domain algebra + z3", "§4 C11"),
+ "C11": ("all -inf patterns and replacement choices of W consecutive real warm-up iterations; recorded evidence within the per-iteration supported fractions as z3 queries, incl. batches without a supported draw, resume in mid warm-up and a kernel step with zero-likelihood proposals", "DSE + log-domain algebra + z3", "§4 C11"),
  "C12": ("all 16 posterior() flag combinations on a symbolic history (every trimming/resampling path), the loop exit condition and the post-loop evidence, as z3 queries", "DSE + log-domain algebra + z3", "§4 C12"),
  "C13": ("all evaluation strategies incl. symbolic pool size and every completion order of a pool double; outputs equal term-by-term and calls == evaluated points on every accept/reject path", "DSE + z3 (UF/LIA), symbolic completion order", "§4 C13"),
- "C14": ("real Trainer/Resampler/ModeStatistics with a contract double for the clusterer and the t-fit; label/mode coherence and fitted-before-predict for symbolic iteration index, cadence and labels", "DSE + z3 (LIA)", "§4 C14"),
- "C15": ("real M-step/covariances on symbolic data and responsibilities (algebraic invariants via nlsat); real hierarchical control logic with a contract double for the inner mixture", "DSE + z3 nlsat / LIA", "§4 C15"),
+ "C14": ("real Trainer/Resampler/ModeStatistics with a contract double for the clusterer and the t-fit; label/mode coherence and fitted-before-predict for symbolic iteration index, cadence and labels, after a resume, over two consecutive iterations and under every outcome of the internal resampling", "DSE + z3 (LIA)", "§4 C14"),
+ "C15": ("real M-step/covariances on symbolic data and responsibilities (algebraic invariants via nlsat); round-off model of binary64 for the d=1 variance; k-means++ initialisation under a range abstraction of exp; real hierarchical control logic with a contract double for the inner mixture, incl. a second fit", "DSE + z3 nlsat / LIA", "§4 C15"),
  "C16": ("bit-precise QF_FP encoding obtained by executing the real apply_boundary_conditions/check_bounds on symbolic doubles; range, idempotence, modulo value and triangle-wave value decided for all finite doubles (value clauses per binade)", "symbolic execution + z3 QF_FP/BV bit-blasting", "§4 C16"),
  "C17": ("operation sequences over the real StateManager/Sampler accessors with scribbling of every returned buffer; later observables must be term-equal (z3) to their pre-scribble values", "DSE + scribble symbols + z3", "§4 C17"),
  "C18": ("real Sampler.__init__/SamplerConfig validation on symbolic option values; constructor raises iff the documented-constraint predicate is false, on every path", "DSE + z3 (LIA/LRA/strings)", "§4 C18"),
- "C19": ("one ECME iteration of the real fit_mvstud and the dof fallback in ModeStatistics on symbolic data; equivariance/bounding-box/PSD as z3 queries (nu update as uninterpreted function)", "relational DSE + z3 (QF_UFNRA)", "§4 C19"),
- "C20": ("all paths of the real ESS/trim_weights/volume_variation on symbolic weights and samples within size bounds; bounds, threshold structure and invariances as z3 queries", "DSE + z3 nlsat", "§4 C20"),
+ "C19": ("one ECME iteration of the real fit_mvstud and the dof fallback in ModeStatistics on symbolic data; equivariance/bounding-box/PSD as z3 queries (nu update as uninterpreted function); the dof decision can depend on the data (QF_FP, existential); concrete data under ill-conditioned scalings with numpy's pinv cut-off modelled", "relational DSE + z3 (QF_UFNRA)", "§4 C19"),
+ "C20": ("all paths of the real ESS/trim_weights/volume_variation on symbolic weights and samples within size bounds; bounds, threshold structure and invariances as z3 queries; ESS in the round-off model of binary64 for weights in [1e-300,1e300]; d=2 invariance on concrete samples under symbolic ill-conditioned maps", "DSE + z3 nlsat", "§4 C20"),
 }
 NOTE = ("bounded: array sizes, dimensions, loop unrollings and value grids are stated per obligation in the evidence file; exact-real arithmetic unless the obligation is QF_FP; "
         "environment (np.random, user callbacks, sub-algorithms named in the evidence) replaced by nondeterministic stubs constrained by their documented contract; "
